@@ -24,6 +24,7 @@ type Resp struct {
 	Loc    string   `json:"loc"`
 	Doc    string   `json:"doc"`
 	JSON   any      `json:"json,omitempty"` // explicit document ({{host}} placeholders in strings)
+	Twin   string   `json:"twin,omitempty"` // status -1 only: the non-https URL has host and path of this (https) id
 }
 
 type World struct {
@@ -38,6 +39,7 @@ var ctVariants = map[string][]string{
 	"jrd":      {"application/jrd+json", "application/jrd+json; charset=utf-8"},
 	"html":     {"text/html; charset=utf-8", "text/plain", "application/xml", "application/json5", "application/activity+json2", "text/json"},
 	"bad":      {"garbage", "/json", "application/"},
+	"wild":     {"*/*", "application/*", "*/*; charset=utf-8", "application/*; charset=utf-8", "*/json"},
 }
 
 var reasons = map[int]string{200: "OK", 201: "Created", 202: "Accepted", 203: "Non-Authoritative Information", 204: "No Content",
@@ -57,6 +59,9 @@ func (w *World) URL(id string) string {
 	scheme := "https"
 	if r, ok := w.Routes[id]; ok && r.Status == -1 {
 		scheme = "http"
+		if r.Twin != "" {
+			host, path = SplitID(r.Twin)
+		}
 	}
 	return scheme + "://" + w.Sim.Host(host).Addr + path
 }
